@@ -12,10 +12,15 @@
 //! Scenarios come from two places: `--random N` (seeded, I->S) and `--scenarios file` (one JSON scenario per
 //! line; tools/props/c14.py builds them from TLC-generated peer schedules, S->I).
 //!
-//! Liveness is observed without trusting the clock alone: when sozu owes a frame according to the ledger
-//! and is silent, the endpoint sends PING; only if sozu answers the PING (so it has processed everything
-//! the peer sent before) and stays silent for a further grace period is a `Stall` event recorded.  If the
-//! PING is not answered either the run is INCONCLUSIVE (overloaded machine / wedged worker: not C14's call).
+//! Liveness is observed without trusting the clock alone, and WITHOUT TOUCHING the checked connection: when sozu
+//! owes a frame according to the ledger and is silent, the endpoint asks the SIDECAR (`Beat`: one more HTTP/2
+//! connection to the same single-threaded worker) for two PING round trips.  They prove that the worker's event
+//! loop has turned twice after the peer's last frame was in the socket, i.e. that sozu has handled everything the
+//! peer sent.  If the checked connection then stays silent for a grace period, and for a second confirmation +
+//! grace, a `Stall` event is recorded.  If the sidecar is not answered the run is INCONCLUSIVE (overloaded
+//! machine / wedged worker: not C14's call).  (The probe used to be a PING on the checked connection itself: any
+//! frame sozu reads there makes it run its writer, which hides exactly the defect class "an event that reopens a
+//! window does not wake the writer" - seeded defect C14-12.)
 
 use std::collections::{BTreeMap, VecDeque};
 use std::io::{Read, Write};
@@ -106,6 +111,66 @@ struct EpCfg {
     /// see try_upload
     split_hdr: usize,
     split_ms: u64,
+    /// the sidecar liveness probe (see the module comment)
+    beat: Arc<Beat>,
+}
+
+/// SIDECAR liveness probe: an HTTP/2 connection of its own to the worker under test.  `turns(n, ..)` makes n PING
+/// round trips one after the other.  The worker is ONE event loop that runs `session.ready()` for every event of a
+/// poll batch before it polls again: two round trips begun after a frame was written to a checked connection prove
+/// that the batch containing that frame's event has been handled - without a single byte on the checked connection.
+struct Beat {
+    addr: SocketAddr,
+    conn: Mutex<Option<H2Conn<TlsStream>>>,
+    seq: AtomicU64,
+    used: AtomicU64,
+}
+
+impl std::fmt::Debug for Beat {
+    fn fmt(&self, f: &mut std::fmt::Formatter<'_>) -> std::fmt::Result { write!(f, "Beat({})", self.addr) }
+}
+
+impl Beat {
+    fn new(addr: SocketAddr) -> Beat { Beat { addr, conn: Mutex::new(None), seq: AtomicU64::new(0), used: AtomicU64::new(0) } }
+
+    fn turns(&self, n: usize, within: Duration) -> bool {
+        let deadline = Instant::now() + within;
+        let mut g = match self.conn.lock() { Ok(g) => g, Err(p) => p.into_inner() };
+        self.used.fetch_add(1, Ordering::Relaxed);
+        for _attempt in 0..4 {
+            let now = Instant::now();
+            if now >= deadline { return false; }
+            if g.is_none() {
+                match h2_tls_client(self.addr, "localhost", (deadline - now).min(Duration::from_secs(20))) {
+                    Ok(mut c) => { if c.client_preface(&[]) { *g = Some(c); } else { continue; } }
+                    Err(_) => { std::thread::sleep(Duration::from_millis(50)); continue; }
+                }
+            }
+            let c = g.as_mut().unwrap();
+            let mut ok = true;
+            for _ in 0..n {
+                let tag = (self.seq.fetch_add(1, Ordering::SeqCst) + 1).to_be_bytes();
+                if !c.send(&Frame::ping(tag, false)) { ok = false; break; }
+                let mut got = false;
+                while !got && !c.eof {
+                    let now = Instant::now();
+                    if now >= deadline { break; }
+                    match c.read_frame(deadline - now) {
+                        Some(f) if f.ty == SETTINGS && f.flags & FLAG_ACK == 0 => { c.send(&Frame::settings_ack()); }
+                        Some(f) if f.ty == PING && f.flags & FLAG_ACK != 0 && f.payload[..] == tag[..] => { got = true; }
+                        Some(f) if f.ty == GOAWAY => { let _ = f; break; }
+                        Some(_) => {}
+                        None => {}
+                    }
+                }
+                if !got { ok = false; break; }
+            }
+            if ok { return true; }
+            // closed by sozu (idle timeout) or broken: a fresh connection, and all the round trips again
+            *g = None;
+        }
+        false
+    }
 }
 
 /// A paced peer lets sozu go idle (PING round trip) before it has sent this many frames in a row: Mux::ready
@@ -720,49 +785,41 @@ impl<S: Read + Write + SetTimeout> Ep<S> {
     }
 
     fn wait_quiet(&mut self, overall: Instant, upload: bool) -> Wait {
-        // (sent at, answered at)
-        let mut probe: Option<(Instant, Option<Instant>)> = None;
-        let mut last_progress = Instant::now();
+        // how often the sidecar has confirmed, during the present silence, that the worker has handled everything
+        let mut confirmed = 0u8;
+        let mut since = Instant::now();
         loop {
             if upload {
                 if !self.cfg.unpaced && self.burst >= PACE_FRAMES {
                     match self.idle_point(overall) { Wait::Quiet => {}, w => return w }
                 }
-                self.try_upload();
+                if self.try_upload() { confirmed = 0; since = Instant::now(); }
             }
             if self.garbled { return Wait::Garbled; }
             if self.c.eof { return Wait::Closed; }
             if !self.sozu_owes() { return Wait::Quiet; }
             let before = self.pings;
             if self.pump(Duration::from_millis(20)) {
-                if self.pings > before {
-                    if let Some(p) = probe.as_mut() { if p.1.is_none() { p.1 = Some(Instant::now()); } }
-                } else {
-                    probe = None;
-                    last_progress = Instant::now();
+                if self.pings == before {
+                    confirmed = 0;
+                    since = Instant::now();
                 }
                 continue;
             }
             if Instant::now() > overall { return Wait::Inconclusive; }
             if self.cfg.abort.as_ref().map(|a| a.load(Ordering::SeqCst)).unwrap_or(false) { return Wait::Inconclusive; }
             if self.cfg.no_stall { continue; }
-            match probe {
-                None => {
-                    if last_progress.elapsed() >= self.cfg.ping_after {
-                        probe = Some((Instant::now(), None));
-                        self.c.send(&Frame::ping(*b"c14probe", false));
-                    }
-                }
-                Some((at, None)) => {
-                    if at.elapsed() >= self.cfg.ping_deadline { return Wait::Inconclusive; }
-                }
-                Some((_, Some(answered))) => {
-                    if answered.elapsed() >= self.cfg.grace {
-                        self.log(json!({"ev": "Stall"}));
-                        return Wait::Stall;
-                    }
-                }
+            // sozu owes a frame and is silent
+            if since.elapsed() < (if confirmed == 0 { self.cfg.ping_after } else { self.cfg.grace }) { continue; }
+            if confirmed >= 2 {
+                self.log(json!({"ev": "Stall"}));
+                return Wait::Stall;
             }
+            // nothing is sent on the checked connection: the sidecar tells whether the worker is alive and has turned
+            let beat = self.cfg.beat.clone();
+            if !beat.turns(2, self.cfg.ping_deadline) { return Wait::Inconclusive; }
+            confirmed += 1;
+            since = Instant::now();
         }
     }
 }
@@ -815,6 +872,19 @@ fn run_ops<S: Read + Write + SetTimeout>(ep: &mut Ep<S>, ops: &[Value], prefix: 
                 else if let Some(&sid) = ep.slots.get(slot - 1) {
                     // a WINDOW_UPDATE on a stream that is finished is legal but says nothing: skip it
                     if matches!(ep.st[&sid].sst, Half::Wait | Half::Open) { ep.send_wu(sid, n); }
+                }
+            }
+            "wu-cross" => {
+                // ledger-driven: lift the send window of stream `slot` (0: every stream sozu is sending on) from where it
+                // stands - zero, or NEGATIVE after a SETTINGS_INITIAL_WINDOW_SIZE decrease under in-flight data - to
+                // `extra` > 0 in ONE WINDOW_UPDATE; `conn`: the connection window too if it is exhausted
+                let extra = opt_i(op, "extra").unwrap_or(1).clamp(1, MAXWIN);
+                let slot = opt_i(op, "slot").unwrap_or(0) as usize;
+                if op["conn"] == true && ep.conn_win <= 0 { let n = (extra - ep.conn_win).min(MAXWIN); ep.send_wu(0, n); }
+                let sids: Vec<u32> = if slot == 0 { ep.slots.clone() } else { ep.slots.get(slot - 1).copied().into_iter().collect() };
+                for sid in sids {
+                    let (win, live) = { let s = &ep.st[&sid]; (s.win, matches!(s.sst, Half::Wait | Half::Open)) };
+                    if live && win <= 0 { ep.send_wu(sid, (extra - win).min(MAXWIN)); }
                 }
             }
             "sync" => match ep.sync(overall) { Wait::Quiet => {}, w => return w },
@@ -1018,6 +1088,7 @@ struct Shared {
     out_inconclusive: Mutex<std::fs::File>,
     results: Mutex<Vec<Value>>,
     quick: bool,
+    beat: Arc<Beat>,
 }
 
 fn ep_cfg(sc: &Value, sh: &Shared, who: &str) -> EpCfg {
@@ -1034,6 +1105,7 @@ fn ep_cfg(sc: &Value, sh: &Shared, who: &str) -> EpCfg {
         abort: None,
         split_hdr: opt_i(p, "split_hdr").unwrap_or(0).clamp(0, 8) as usize,
         split_ms: opt_i(p, "split_ms").unwrap_or(20).clamp(0, 1000) as u64,
+        beat: sh.beat.clone(),
     }
 }
 
@@ -1233,6 +1305,21 @@ fn random_scenario(r: &mut StdRng, id: u64, thorough: bool) -> Value {
         ops.push(ch);
         if r.random_range(0..2) == 0 { ops.push(json!({"op": "sync"})); }
     }
+    // a walk of further SETTINGS_INITIAL_WINDOW_SIZE changes under in-flight data, each followed (or not) by a
+    // WINDOW_UPDATE that lifts the - possibly negative - window above zero in one step
+    if r.random_range(0..3) == 0 {
+        if total > 0 { ops.push(json!({"op": "await", "bytes": r.random_range(0..=total.min(100_000)), "streams": 1})); }
+        for _ in 0..r.random_range(1..=3) {
+            if r.random_range(0..3) > 0 { ops.push(json!({"op": "sync"})); }
+            ops.push(json!({"op": "settings", "initWin": pick(r, &[0i64, 0, 1, 100, 5_000, 16_383, 65_535])}));
+            if r.random_range(0..3) > 0 { ops.push(json!({"op": "sync"})); }
+            if r.random_range(0..4) > 0 {
+                ops.push(json!({"op": "wu-cross", "slot": r.random_range(0..=nstreams), "extra": pick(r, &[1i64, 1, 100, 16_384, 1 << 20]),
+                                "conn": r.random_range(0..2) == 0}));
+            }
+        }
+        if r.random_range(0..2) == 0 { ops.push(json!({"op": "sync"})); }
+    }
     if r.random_range(0..4) == 0 {
         ops.push(json!({"op": "pause", "ms": pick(r, &[30i64, 100, 300]), "rcvbuf": 131_072}));
         if r.random_range(0..2) == 0 { ops.push(json!({"op": "ping"})); }
@@ -1273,6 +1360,40 @@ fn fixed_scenarios(mut id: u64, thorough: bool) -> Vec<Value> {
                {"op": "settings", "initWin": 0}, {"op": "sync"}, {"op": "wu", "slot": 0, "n": 1_000_000}, {"op": "sync"},
                {"op": "wu", "slot": 1, "n": 65_535}, {"op": "sync"}, {"op": "wu", "slot": 1, "n": 1}, {"op": "sync"},
                {"op": "settings", "initWin": 1 << 20}, {"op": "finish", "mode": "burst", "k": 1 << 20}]), &mut v);
+    // SETTINGS_INITIAL_WINDOW_SIZE changed again and again UNDER IN-FLIGHT DATA (RFC 9113 6.9.2), both roles: decrease
+    // below the bytes already sent (negative window), one WINDOW_UPDATE that crosses zero (-10 000 -> +5 000), decrease
+    // to 0, update to exactly +1, increase from 0, three changes in a row, crossing again; every step must be followed
+    // by exactly the bytes the new window allows (no overdraft, no stall)
+    add("fixed:front:resettings-cross-zero", "front", "h2", "tls", json!([{"down": 100_000, "up": 0}]),
+        json!([{"op": "settings", "initWin": 20_000}, {"op": "wu", "slot": 0, "n": 1_000_000}, {"op": "sync"}, {"op": "open", "down": 100_000, "up": 0},
+               {"op": "sync"},
+               {"op": "settings", "initWin": 10_000}, {"op": "sync"}, {"op": "wu", "slot": 1, "n": 15_000}, {"op": "sync"},
+               {"op": "settings", "initWin": 0}, {"op": "sync"}, {"op": "wu-cross", "slot": 1, "extra": 1}, {"op": "sync"},
+               {"op": "settings", "initWin": 30_000}, {"op": "sync"},
+               {"op": "settings", "initWin": 5_000}, {"op": "settings", "initWin": 50_000}, {"op": "settings", "initWin": 1_000}, {"op": "sync"},
+               {"op": "wu-cross", "slot": 1, "extra": 16_384}, {"op": "sync"}, {"op": "finish", "mode": "eager"}]), &mut v);
+    add("fixed:front:resettings-2streams", "front", "h2", "tls", json!([{"down": 90_000, "up": 0}, {"down": 70_000, "up": 0}]),
+        json!([{"op": "settings", "initWin": 16_384}, {"op": "wu", "slot": 0, "n": 1_000_000}, {"op": "sync"}, {"op": "open", "down": 90_000, "up": 0},
+               {"op": "open", "down": 70_000, "up": 0}, {"op": "sync"}, {"op": "settings", "initWin": 16_000}, {"op": "sync"},
+               {"op": "wu-cross", "slot": 2, "extra": 100}, {"op": "sync"}, {"op": "wu-cross", "slot": 1, "extra": 20_000}, {"op": "sync"},
+               {"op": "settings", "initWin": 1}, {"op": "sync"}, {"op": "wu-cross", "slot": 0, "extra": 16_385}, {"op": "sync"},
+               {"op": "settings", "initWin": 65_535}, {"op": "finish", "mode": "burst", "k": 30_000}]), &mut v);
+    add("fixed:back:resettings-cross-zero", "back", "h1", "h1", json!([{"down": 5, "up": 100_000}]),
+        json!([{"op": "settings", "initWin": 20_000, "maxStreams": 100}, {"op": "wu", "slot": 0, "n": 1_000_000}, {"op": "await", "bytes": 20_000, "streams": 1},
+               {"op": "sync"},
+               {"op": "settings", "initWin": 10_000}, {"op": "sync"}, {"op": "wu", "slot": 1, "n": 15_000}, {"op": "sync"},
+               {"op": "settings", "initWin": 0}, {"op": "sync"}, {"op": "wu-cross", "slot": 1, "extra": 1}, {"op": "sync"},
+               {"op": "settings", "initWin": 30_000}, {"op": "sync"},
+               {"op": "settings", "initWin": 5_000}, {"op": "settings", "initWin": 50_000}, {"op": "settings", "initWin": 1_000}, {"op": "sync"},
+               {"op": "wu-cross", "slot": 1, "extra": 16_384}, {"op": "sync"}, {"op": "finish", "mode": "eager"}]), &mut v);
+    add("fixed:back:resettings-cross-zero-h2", "back", "h2", "tls", json!([{"down": 5, "up": 100_000}]),
+        json!([{"op": "settings", "initWin": 20_000, "maxStreams": 100}, {"op": "wu", "slot": 0, "n": 1_000_000}, {"op": "await", "bytes": 20_000, "streams": 1},
+               {"op": "sync"},
+               {"op": "settings", "initWin": 10_000}, {"op": "sync"}, {"op": "wu", "slot": 1, "n": 15_000}, {"op": "sync"},
+               {"op": "settings", "initWin": 0}, {"op": "sync"}, {"op": "wu-cross", "slot": 1, "extra": 1}, {"op": "sync"},
+               {"op": "settings", "initWin": 30_000}, {"op": "sync"},
+               {"op": "settings", "initWin": 5_000}, {"op": "settings", "initWin": 50_000}, {"op": "settings", "initWin": 1_000}, {"op": "sync"},
+               {"op": "wu-cross", "slot": 1, "extra": 16_384}, {"op": "sync"}, {"op": "finish", "mode": "eager"}]), &mut v);
     // large frames allowed, then the limit comes back down mid-body
     add("fixed:front:frame-grow-shrink", "front", "h2", "tls", json!([{"down": 1_000_000, "up": 0}]),
         json!([{"op": "settings", "initWin": 1 << 20, "maxFrame": (1 << 24) - 1}, {"op": "wu", "slot": 0, "n": 1 << 24}, {"op": "sync"},
@@ -1601,6 +1722,7 @@ fn main() {
         out_inconclusive: Mutex::new(std::fs::File::create(format!("{out_server}.inconclusive")).expect("out-inconclusive")),
         results: Mutex::new(Vec::new()),
         quick: !thorough,
+        beat: Arc::new(Beat::new(tls)),
     };
     let queue: Mutex<VecDeque<(Value, Option<(TcpListener, String)>)>> = Mutex::new(
         scenarios.iter().map(|s| (s.clone(), back_listeners.remove(&s["id"].as_u64().unwrap_or(0)))).collect());
@@ -1637,7 +1759,7 @@ fn main() {
     let count = |o: &str| results.iter().filter(|r| r["outcome"] == o).count();
     vh::util::emit(&json!({"kind": "summary", "scenarios": scenarios.len(), "runs": results.iter().filter(|r| r["kind"] == "run").count(),
         "done": count("done"), "stall": count("stall"), "closed": count("closed"), "inconclusive": count("inconclusive"),
-        "garbled": count("garbled"),
+        "garbled": count("garbled"), "sidecar_probes": sh.beat.used.load(Ordering::Relaxed),
         "half_frame_wu_pending": HALF_FRAME_WU.load(Ordering::Relaxed), "half_frame_zero_deferred": HALF_FRAME_ZERO.load(Ordering::Relaxed),
         "worker_panic": worker_panic, "worker_wedged": worker_wedged, "panics": PANICS.lock().map(|p| p.clone()).unwrap_or_default(), "wall_s": t0.elapsed().as_secs_f64(),
         "data_bytes": results.iter().map(|r| r["data_bytes"].as_i64().unwrap_or(0)).sum::<i64>()}));
